@@ -59,6 +59,12 @@ CLAIMS = {
     "C28": ("proof", "do/undo sibling agreement on mutated-field sets (MIR mutable borrows and writes rooted at self, closures and same-type helpers included), reverse-order undo and guard in rollback, must-pass-through from every op-set mutation in a transaction to pending.push, storage of the undo list",
             "Proves for six do/undo pairs (successor columns, Columns splice/remove, OpSet splice/undo_op, and the three insert_actor/remove_actor pairs) that the backward half touches every field the forward half mutates; that rollback undoes pending ops in reverse via undo_op and removes the actor only for a first change; and that every mutation of the op set inside a transaction is pushed onto pending with its undo list stored.",
             "Decides that nothing mutated by an aborted transaction is left without an undo path; does not decide that the restored values equal the prior ones.", "DESIGN.md §3 C28"),
+    "C33": ("proof", "sibling agreement of import_map / import_list arm by arm (MIR switch on the serde_json::Value discriminant, generic instantiation of put/insert per arm, ObjType constants, order of the numeric fall-backs), plus C32's export rules",
+            "Proves that both CLI importers match every JSON variant without a wildcard and store the same thing per variant (same value type, same ObjType with recursion into the matching importer, numbers tried as i64 then u64 then f64), and re-checks the structural rules of the AutoSerde export.",
+            "Thin: the value-level round trip through a saved document is not decided.", "DESIGN.md §3 C33"),
+    "C36": ("proof", "FFI pointer discipline over every extern \"C\" function (enumerated by ABI): classification of all uses of raw-pointer parameters, edge-dominance of direct dereferences by is_null()==false, who-may-call Box::from_raw/into_raw, who-may-dereference stored raw pointers",
+            "Proves that raw pointer parameters of the 168 extern functions are used only through null-tolerant conversions, reviewed callees, inventoried from_raw_parts, or dereferences guarded by a null test of the same parameter; that owning pointers have exactly one release path (AMresultFree, null-guarded) and two creation sites; and that stored raw pointers are dereferenced only in a reviewed accessor set.",
+            "Thin: decides pointer discipline, not lifetime validity of stored pointers, leak-freedom, or agreement with the Rust API. Six out-parameter writes in AMsyncStateTheir{Haves,Heads,Needs} lack the null test the rest of the crate uses; the header documents `has_value != NULL`, so they are reviewed exceptions (tables/r14_deref.tsv), not findings.", "DESIGN.md §3 C36"),
 }
 
 NA_PLANNED = "rule designed in DESIGN.md §3 but its checker is not built in this revision, so nothing is claimed yet"
